@@ -2,7 +2,7 @@
    Statements only; proofs in Proof/SlipLemmas.v; model Model/Slip.v.
    [pdecode] is one call of the decoder on an octet list, [trace] the results of calling it again
    and again until the input is exhausted (both tied to rfc1055_decode by ./check C12). *)
-From Ufw Require Import Base.Bits Base.Errno Model.Endpoints Model.Slip Proof.LenpLemmas Proof.SlipLemmas Proof.SlipOperational.
+From Ufw Require Import Base.Bits Base.Errno Model.Endpoints Model.Slip Proof.LenpLemmas Proof.SlipLemmas Proof.SlipOperational Proof.SlipFaults.
 Local Open Scope N_scope.
 
 (* decoding the encoding returns exactly the payload, signals end-of-frame, leaves what follows *)
@@ -93,3 +93,24 @@ Theorem C12_operational_encoder : forall sof oct inp calls got kc,
     = Some (None, plain_src oct [] calls', plain_snk false (got ++ slip_encode sof inp) kc').
 Proof. exact slip_encode_op_plain. Qed.
 Print Assumptions C12_operational_encoder.
+
+(* ---- one call of the operational decoder under EVERY behaviour script of the source and of the sink (short answers, EINTR/EAGAIN,
+   hard errors at any position) ---- *)
+(* it returns *)
+Theorem C12_decode_returns : forall sof st s k, slip_decode_op sof st s k <> None.
+Proof. exact slip_decode_op_total. Qed.
+Print Assumptions C12_decode_returns.
+(* what it consumed is a prefix of the source's stream, what it emitted was appended to the sink, and it never emits more octets
+   than it consumed *)
+Theorem C12_decode_no_amplification : forall sof st s k rc st' s' k', slip_decode_op sof st s k = Some (rc, st', s', k') ->
+  exists consumed emitted, s_stream s = consumed ++ s_stream s' /\ k_got k' = k_got k ++ emitted /\
+    (length emitted <= length consumed)%nat.
+Proof. exact slip_decode_op_bounded. Qed.
+Print Assumptions C12_decode_no_amplification.
+(* error codes: EILSEQ is the decoder's own; every other code is one the source or the sink driver produced (for drivers that
+   answer every call with an octet or an error) *)
+Theorem C12_decode_errors_unchanged : forall sof st s k e st' s' k', answers s ->
+  slip_decode_op sof st s k = Some (DFail e, st', s', k') -> e = EILSEQ \/ src_error s e \/ snk_error k e.
+Proof. exact slip_decode_op_errors. Qed.
+Print Assumptions C12_decode_errors_unchanged.
+
